@@ -86,8 +86,11 @@ class Addr:
                                                            self._expire)
 
             else:
-                diff = self.expires - oldexpires
-                self.expiry.delay(diff.total_seconds())
+                # (the pending timer need not be at the old expiry: a
+                # mapping that arrived already-expired was armed for
+                # "now"), so re-arm it relative to the current time
+                diff = self.expires - self.created
+                self.expiry.reset(max(0, diff.total_seconds()))
 
     def _cancel_expiry(self):
         if self.expiry is not None and self.expiry.active():
